@@ -519,6 +519,7 @@ func Run(t *testing.T, bind *Binding, spec *RunSpec) (obs *model.Obs) {
 		// (syslog caches the logger per prefix for the life of the process: the driver gives one
 		// worker process programs of one parity only)
 		syslog.SetLogger(syslog.New(syslog.LvError))
+		ctx.StockLog = true
 	}
 
 	defer func() {
